@@ -267,7 +267,8 @@ func helperResultRejected(p *Prog, anchor, h *FuncInfo) bool {
 }
 
 func c14R2(p *Prog, r *Report, fi *FuncInfo) {
-	r.Rule("C14.R2", "method.Parse reaches its success return only past these guards, each of which returns a non-nil error: inaccessible function; not a function; result arity outside 1..2 (condition evaluated for 0..4 results); second result not error; generic without AllowTypeParams; source count vs. ParamsNone/ParamsRequired; additional sources; missing update argument; update method with non-error/multiple results", 9)
+	r.Rule("C14.R2", "method.Parse rejects what the documentation rejects. Result validation is decided as a table by path-sensitive evaluation of the function (absint.go): for each combination of result count 0..4, `is the built-in error` at position 0/1, update argument set or not, and generic with/without AllowTypeParams, a success return is unreachable exactly for the undocumented shapes (and reachable for the documented ones); with goverter:update ARG no success is reachable while no parameter was recognised as ARG. Guards found structurally: inaccessible function; not a function; source count vs. ParamsNone/ParamsRequired; additional sources", 12)
+	parseResultTable(p, r, fi)
 	info := fi.Pkg.TypesInfo
 	ment := func(pkg, typ, f string) func(info *types.Info, e ast.Expr) bool {
 		return func(info *types.Info, e ast.Expr) bool { return mentionsField(info, e, pkg, typ, f) }
@@ -301,12 +302,6 @@ func c14R2(p *Prog, r *Report, fi *FuncInfo) {
 				return true
 			})
 			return found
-		}},
-		{"generic function without AllowTypeParams", func(info *types.Info, c ast.Expr) bool {
-			return ment(mp, "Parameters", "TypeParams")(info, c) && ment(mp, "ParseOpts", "AllowTypeParams")(info, c)
-		}},
-		{"missing update argument", func(info *types.Info, c ast.Expr) bool {
-			return ment(mp, "Parameters", "UpdateTarget")(info, c) && ment(mp, "ParseOpts", "UpdateParam")(info, c)
 		}},
 	}
 	site := func(g string) string { return "method.Parse/guard: " + g }
@@ -342,71 +337,6 @@ func c14R2(p *Prog, r *Report, fi *FuncInfo) {
 			r.Bad(site(g.name), p.PosStr(hit.Pos()), "the guard no longer returns (nil, error)")
 		default:
 			r.OK(site(g.name), p.PosStr(hit.Pos()), "returns (nil, error)")
-		}
-	}
-	// result arity: find `if resultsLen == 0 || resultsLen > 2` (a condition over one int variable that is Results().Len())
-	{
-		var hit *ast.IfStmt
-		ast.Inspect(fi.Decl, func(n ast.Node) bool {
-			ifs, ok := n.(*ast.IfStmt)
-			if !ok || hit != nil {
-				return true
-			}
-			if v := singleIntVar(info, ifs.Cond); v != nil && isResultsLen(info, fi, v) && returnsNilErr(info, ifs.Body) {
-				// must not be inside the update arm
-				hit = ifs
-			}
-			return true
-		})
-		g := "result arity (1 or 2 results)"
-		if hit == nil {
-			r.Bad(site(g), p.PosStr(fi.Decl.Pos()), "no guard on the number of results")
-		} else {
-			bad := ""
-			for n := int64(0); n <= 4; n++ {
-				rej, ok := evalIntCond(info, hit.Cond, n)
-				want := n == 0 || n > 2
-				if !ok {
-					bad = "condition not evaluable"
-					break
-				}
-				if rej != want {
-					bad = fmt.Sprintf("%d result(s) are %s, documented: %s", n, map[bool]string{true: "rejected", false: "accepted"}[rej], map[bool]string{true: "rejected", false: "accepted"}[want])
-					break
-				}
-			}
-			if bad != "" {
-				r.Bad(site(g), p.PosStr(hit.Pos()), bad)
-			} else {
-				r.OK(site(g), p.PosStr(hit.Pos()), "evaluated for 0..4 results: rejects 0 and ≥3")
-			}
-		}
-	}
-	// second result must be error: `if resultsLen == 2 { if isError(..At(1)) {ReturnError = true} else { return err } }`
-	{
-		ok := false
-		var where ast.Node = fi.Decl
-		ast.Inspect(fi.Decl, func(n ast.Node) bool {
-			ifs, isIf := n.(*ast.IfStmt)
-			if !isIf {
-				return true
-			}
-			if c := callTo(info, ifs.Cond, mp, "", "isError"); c != nil && strings.Contains(exprString(c.Args[0]), "At(1)") {
-				if els, isBlk := ifs.Else.(*ast.BlockStmt); isBlk && returnsNilErr(info, els) {
-					// the true branch sets ReturnError
-					if mentionsField(info, ifs.Body, mp, "Parameters", "ReturnError") {
-						ok = true
-						where = ifs
-					}
-				}
-			}
-			return true
-		})
-		g := "second result must be the built-in error"
-		if ok {
-			r.OK(site(g), p.PosStr(where.Pos()), "isError(results[1]) else (nil, error)")
-		} else {
-			r.Bad(site(g), p.PosStr(fi.Decl.Pos()), "a non-error second result is no longer rejected")
 		}
 	}
 	// source count switch
@@ -456,65 +386,6 @@ func c14R2(p *Prog, r *Report, fi *FuncInfo) {
 			} else {
 				r.Bad(site(name), p.PosStr(fi.Decl.Pos()), "validation missing")
 			}
-		}
-	}
-	// update arm results
-	{
-		ok := false
-		ast.Inspect(fi.Decl, func(n ast.Node) bool {
-			cc, isCC := n.(*ast.CaseClause)
-			if !isCC || len(cc.List) != 1 || !ment(mp, "ParseOpts", "UpdateParam")(info, cc.List[0]) {
-				return true
-			}
-			// inner switch: case len==0 ; case len==1 && isError ; default: return err
-			ast.Inspect(cc, func(m ast.Node) bool {
-				sw, isSw := m.(*ast.SwitchStmt)
-				if !isSw || sw.Tag != nil {
-					return true
-				}
-				hasZero, hasErr, hasDef := false, false, false
-				for _, c := range sw.Body.List {
-					c2 := c.(*ast.CaseClause)
-					if len(c2.List) == 0 {
-						if len(c2.Body) > 0 {
-							if ret, isRet := c2.Body[len(c2.Body)-1].(*ast.ReturnStmt); isRet && retIsNilErr(info, ret) {
-								hasDef = true
-							}
-						}
-						continue
-					}
-					if v := singleIntVar(info, c2.List[0]); v != nil && isResultsLen(info, fi, v) {
-						if t, ok := evalIntCond(info, c2.List[0], 0); ok && t {
-							if f, ok := evalIntCond(info, c2.List[0], 1); ok && !f {
-								hasZero = true
-							}
-						}
-					}
-					if callsIn2(info, c2.List[0], mp, "isError") {
-						cs := conjuncts(c2.List[0])
-						for _, cj := range cs {
-							if v := singleIntVar(info, cj); v != nil && isResultsLen(info, fi, v) {
-								t1, ok1 := evalIntCond(info, cj, 1)
-								t2, ok2 := evalIntCond(info, cj, 2)
-								if ok1 && ok2 && t1 && !t2 {
-									hasErr = true
-								}
-							}
-						}
-					}
-				}
-				if hasZero && hasErr && hasDef {
-					ok = true
-				}
-				return true
-			})
-			return true
-		})
-		g := "update method results (none, or exactly one error)"
-		if ok {
-			r.OK(site(g), p.PosStr(fi.Decl.Pos()), "0 results, or 1 result that isError; everything else (nil, error)")
-		} else {
-			r.Bad(site(g), p.PosStr(fi.Decl.Pos()), "results on update methods are no longer validated as documented")
 		}
 	}
 }
